@@ -47,7 +47,14 @@ def run(r):
         rep.analysed(q)
         n = 0
         seen = set()
-        for e in s.events_of("call"):
+        helper_events = []
+        for e0 in s.events_of("call"):
+            f0 = strip(strip(e0["term"])[1])
+            if head(f0) == "glob" and f0[1] in r.P.functions and f0[1].rsplit(".", 1)[1].startswith("_"):
+                hs = r.A.summary(f0[1])
+                rep.analysed(f0[1])
+                helper_events.extend((hs, x) for x in hs.events_of("call"))
+        for s_cur, e in [(s, x) for x in s.events_of("call")] + helper_events:
             t = strip(e["term"])
             f = strip(t[1])
             if not (head(f) == "attr" and f[2] == "apply"):
@@ -57,18 +64,21 @@ def run(r):
                 continue
             seen.add(key)
             n += 1
-            w = where_of(r.P, s.func, e.node)
+            w = where_of(r.P, s_cur.func, e.node)
             lam = t[2][0] if t[2] else None
-            sep = is_row_serializer(lam) if lam is not None else None
+            sep = is_row_serializer(lam, s_cur) if lam is not None else None
+            if sep is None and lam is not None and head(strip(lam)) != "lam":
+                rep.require(False, f"{q}: row serialiser {show(lam, 60)} is not a lambda / local function; cannot decide [C02-SER]")
+                continue
             rep.ob("C02-SER", q, sep is not None, "row serialiser joins str() of every cell of the row", w,
                    expected="lambda row: SEP.join(str(v) for v in row) (or map(str,row) / row.astype(str))", found=show(lam, 160), key=f"serializer form #{n}")
             if sep is not None:
-                rep.ob("C02-SER", q, sep_ok(sep, s), "separator is a non-empty string (constant or defaulted parameter)", w,
+                sep_good = sep_ok(sep, s_cur) or (s_cur is not s and head(strip(sep)) == "param")   # a helper's separator parameter is checked at the call through the RF / JOINT rules
+                rep.ob("C02-SER", q, sep_good, "separator is a non-empty string (constant or defaulted parameter)", w,
                        expected="non-empty separator", found=show(sep, 60), key=f"separator #{n}")
             ax = dict(t[3]).get("axis")
             rep.ob("C02-SER", q, ax is not None and is_const(ax, 1), "serialiser is applied per row (axis=1)", w, expected="axis=1", found=show(ax) if ax else "axis omitted (column-wise)", key=f"axis #{n}")
-        if n < floor:
-            raise AnalysisBroken(f"{q}: {n} row-serialiser site(s) found, floor is {floor}")
+        rep.require(n >= floor, f"{q}: {n} row-serialiser site(s) found, floor is {floor}")
     rep.floor("C02-SER", 9)
 
 
